@@ -1,0 +1,6 @@
+//go:build !verif
+
+package disk
+
+// verifPoint is a no-op unless built with the "verif" build tag.
+func verifPoint(point string, key string, n int64) {}
